@@ -61,6 +61,32 @@ fn detect_skin_format<R: Read + Seek>(reader: &mut R) -> Result<bool> {
     Ok(plausible)
 }
 
+/// Length of the stream in bytes; the stream position is left unchanged.
+fn stream_len<R: Seek>(reader: &mut R) -> Result<u64> {
+    let pos = reader.stream_position()?;
+    let len = reader.seek(SeekFrom::End(0))?;
+    reader.seek(SeekFrom::Start(pos))?;
+    Ok(len)
+}
+
+/// Check that the `count * elem_size` bytes referenced by a header array lie inside
+/// the stream, and return the number of elements.
+fn checked_array_len<T>(
+    array: &M2Array<T>,
+    elem_size: u64,
+    stream_len: u64,
+    what: &str,
+) -> Result<usize> {
+    let end = array.offset as u64 + array.count as u64 * elem_size;
+    if array.count > 0 && end > stream_len {
+        return Err(M2Error::ParseError(format!(
+            "skin {what}: {} entries of {elem_size} bytes at offset {:#x} exceed the stream length {stream_len}",
+            array.count, array.offset
+        )));
+    }
+    Ok(array.count as usize)
+}
+
 /// Parse a SKIN file with automatic format detection
 pub fn parse_skin<R: Read + Seek>(reader: &mut R) -> Result<SkinFile> {
     let is_new_format = detect_skin_format(reader)?;
@@ -78,9 +104,11 @@ pub fn parse_skin<R: Read + Seek>(reader: &mut R) -> Result<SkinFile> {
 pub fn parse_embedded_skin<R: Read + Seek>(reader: &mut R, m2_version: u32) -> Result<SkinFile> {
     // Parse the header without expecting SKIN magic
     let header = OldSkinHeader::parse_embedded(reader)?;
+    let len = stream_len(reader)?;
+    let submesh_size = if m2_version < 260 { 32 } else { 48 };
 
     // Parse indices
-    let mut indices = Vec::with_capacity(header.indices.count as usize);
+    let mut indices = Vec::with_capacity(checked_array_len(&header.indices, 2, len, "indices")?);
     if header.indices.count > 0 && header.indices.offset > 0 {
         reader.seek(SeekFrom::Start(header.indices.offset as u64))?;
         for _ in 0..header.indices.count {
@@ -89,7 +117,8 @@ pub fn parse_embedded_skin<R: Read + Seek>(reader: &mut R, m2_version: u32) -> R
     }
 
     // Parse triangles
-    let mut triangles = Vec::with_capacity(header.triangles.count as usize);
+    let mut triangles =
+        Vec::with_capacity(checked_array_len(&header.triangles, 2, len, "triangles")?);
     if header.triangles.count > 0 && header.triangles.offset > 0 {
         reader.seek(SeekFrom::Start(header.triangles.offset as u64))?;
         for _ in 0..header.triangles.count {
@@ -99,7 +128,7 @@ pub fn parse_embedded_skin<R: Read + Seek>(reader: &mut R, m2_version: u32) -> R
 
     // Parse bone indices
     // Note: count is number of vertices, each with 4 bone indices (ubyte4)
-    let total_bone_bytes = (header.bone_indices.count as usize) * 4;
+    let total_bone_bytes = checked_array_len(&header.bone_indices, 4, len, "bone indices")? * 4;
     let mut bone_indices = Vec::with_capacity(total_bone_bytes);
     if header.bone_indices.count > 0 && header.bone_indices.offset > 0 {
         reader.seek(SeekFrom::Start(header.bone_indices.offset as u64))?;
@@ -109,7 +138,12 @@ pub fn parse_embedded_skin<R: Read + Seek>(reader: &mut R, m2_version: u32) -> R
     }
 
     // Parse submeshes
-    let mut submeshes = Vec::with_capacity(header.submeshes.count as usize);
+    let mut submeshes = Vec::with_capacity(checked_array_len(
+        &header.submeshes,
+        submesh_size,
+        len,
+        "submeshes",
+    )?);
     if header.submeshes.count > 0 && header.submeshes.offset > 0 {
         reader.seek(SeekFrom::Start(header.submeshes.offset as u64))?;
         for _ in 0..header.submeshes.count {
@@ -118,7 +152,7 @@ pub fn parse_embedded_skin<R: Read + Seek>(reader: &mut R, m2_version: u32) -> R
     }
 
     // Parse batches
-    let mut batches = Vec::with_capacity(header.batches.count as usize);
+    let mut batches = Vec::with_capacity(checked_array_len(&header.batches, 24, len, "batches")?);
     if header.batches.count > 0 && header.batches.offset > 0 {
         reader.seek(SeekFrom::Start(header.batches.offset as u64))?;
         for _ in 0..header.batches.count {
@@ -774,11 +808,12 @@ where
     pub fn parse<R: Read + Seek>(reader: &mut R) -> Result<Self> {
         // Parse the header
         let header = H::parse(reader)?;
+        let len = stream_len(reader)?;
 
         // Parse indices
         let header_indices = header.indices();
         reader.seek(SeekFrom::Start(header_indices.offset as u64))?;
-        let mut indices = Vec::with_capacity(header_indices.count as usize);
+        let mut indices = Vec::with_capacity(checked_array_len(header_indices, 2, len, "indices")?);
         for _ in 0..header_indices.count {
             indices.push(reader.read_u16_le()?);
         }
@@ -786,7 +821,8 @@ where
         // Parse triangles
         let header_triangles = header.triangles();
         reader.seek(SeekFrom::Start(header_triangles.offset as u64))?;
-        let mut triangles = Vec::with_capacity(header_triangles.count as usize);
+        let mut triangles =
+            Vec::with_capacity(checked_array_len(header_triangles, 2, len, "triangles")?);
         for _ in 0..header_triangles.count {
             triangles.push(reader.read_u16_le()?);
         }
@@ -796,7 +832,7 @@ where
         // (ubyte4 structure), so we read count * 4 bytes
         let header_bone_indices = header.bone_indices();
         reader.seek(SeekFrom::Start(header_bone_indices.offset as u64))?;
-        let total_bone_bytes = (header_bone_indices.count as usize) * 4;
+        let total_bone_bytes = checked_array_len(header_bone_indices, 4, len, "bone indices")? * 4;
         let mut bone_indices = Vec::with_capacity(total_bone_bytes);
         for _ in 0..total_bone_bytes {
             bone_indices.push(reader.read_u8()?);
@@ -805,7 +841,8 @@ where
         // Parse submeshes
         let header_submeshes = header.submeshes();
         reader.seek(SeekFrom::Start(header_submeshes.offset as u64))?;
-        let mut submeshes = Vec::with_capacity(header_submeshes.count as usize);
+        let mut submeshes =
+            Vec::with_capacity(checked_array_len(header_submeshes, 48, len, "submeshes")?);
         for _ in 0..header_submeshes.count {
             submeshes.push(SkinSubmesh::parse(reader)?);
         }
@@ -813,7 +850,8 @@ where
         // Parse batches
         let header_batches = header.batches();
         reader.seek(SeekFrom::Start(header_batches.offset as u64))?;
-        let mut batches = Vec::with_capacity(header_batches.count as usize);
+        let mut batches =
+            Vec::with_capacity(checked_array_len(header_batches, 24, len, "batches")?);
         for _ in 0..header_batches.count {
             batches.push(SkinBatch::parse(reader)?);
         }
